@@ -77,6 +77,9 @@ class AwesomeyamlLoader(yaml.Loader):
                 return self._construct_again(node)
             if isinstance(node, (yaml.SequenceNode, yaml.MappingNode)) and (not isinstance(known, ConfigNode) or known._is_plain_composed()):
                 return self._construct_again(node)
+            if isinstance(node, yaml.ScalarNode) and isinstance(known, ConfigNode) and not self._runs_code(known):
+                # a scalar with a tag (!force 5, !required, !xref name, ...) is data like an untagged one: each place has its own
+                return self._construct_again(node)
             if isinstance(known, ConfigNode) and id(node) not in self.__dict__.get('_aliased_nodes', ()):
                 # met again without an alias of its own: a value which a merge key ('<<: *name') takes over from the mapping of the
                 # anchor - made afresh like everything else that stands below an alias
@@ -119,16 +122,26 @@ class AwesomeyamlLoader(yaml.Loader):
         from .nodes.include import IncludeNode
         return isinstance(known, (AppendNode, ExtendNode, ClearNode, PrevNode, IncludeNode))
 
+    @staticmethod
+    def _runs_code(known):
+        ''' Scalar-like nodes which are evaluated by running code (!eval, f-strings): like function nodes, one with an alias of its own
+            is one node at all its places, evaluated once.
+        '''
+        from .nodes.eval import EvalNode
+        return isinstance(known, EvalNode)
+
     def _construct_again(self, node):
         ''' Plain data below an alias is constructed afresh, as if the text of the anchor had been written in its place: the places
             share nothing, so merging into one of them - or a tag above one of them - does not show at the others.
-            A dynamic node (!call, !eval, !xref, ...) stays one node in all the places its own alias puts it.
+            A dynamic node that runs code (!call, !bind, !eval, ...) stays one node in all the places its own alias puts it.
         '''
         aliased = self.__dict__.get('_aliased_nodes', ())
 
         def shared(n):
             known = self.constructed_objects.get(n)
             if self._acts_where_it_stands(known):
+                return False
+            if isinstance(n, yaml.ScalarNode) and not self._runs_code(known):
                 return False
             return isinstance(known, ConfigNode) and not known._is_plain_composed() and id(n) in aliased # a dynamic node with an alias of its own
 
